@@ -230,10 +230,35 @@ func c18Clone(n tv.Node) tv.Node {
 var (
 	c18XMLInt  = regexp.MustCompile(`type="(Integer|LongInteger|Interval)" value="(\d+)"`)
 	c18JSONNum = regexp.MustCompile(`"type": "(Integer|LongInteger|Interval)", "value": (\d+)`)
+	c18XMLDate  = regexp.MustCompile(`type="DateTime" value="([^"]+)"`)
+	c18JSONDate = regexp.MustCompile(`"type": "DateTime", "value": "([^"]+)"`)
 )
 
 // c18LexMutate rewrites some numbers of an XML / JSON document in another accepted lexical form.
+// c18DateVariant: the same instant written differently: another UTC offset, or (JSON) the 0x form of
+// the epoch seconds.
+func c18DateVariant(r *h.Rand, enc string, val string) string {
+	t, err := time.Parse(time.RFC3339, val)
+	if err != nil {
+		return val
+	}
+	if enc == "json" && t.Unix() >= 0 && r.Bool() {
+		return fmt.Sprintf("0x%x", t.Unix())
+	}
+	offs := []int{0, 3600, -5 * 3600, 5*3600 + 1800, 14 * 3600}
+	return t.In(time.FixedZone("", offs[r.Intn(len(offs))])).Format(time.RFC3339)
+}
+
 func c18LexMutate(r *h.Rand, enc string, doc []byte) []byte {
+	if enc == "xml" {
+		doc = c18XMLDate.ReplaceAllFunc(doc, func(m []byte) []byte {
+			return []byte(fmt.Sprintf(`type="DateTime" value="%s"`, c18DateVariant(r, enc, string(c18XMLDate.FindSubmatch(m)[1]))))
+		})
+	} else {
+		doc = c18JSONDate.ReplaceAllFunc(doc, func(m []byte) []byte {
+			return []byte(fmt.Sprintf(`"type": "DateTime", "value": "%s"`, c18DateVariant(r, enc, string(c18JSONDate.FindSubmatch(m)[1]))))
+		})
+	}
 	if enc == "xml" {
 		return c18XMLInt.ReplaceAllFunc(doc, func(m []byte) []byte {
 			if !r.Chance(1, 2) {
@@ -284,6 +309,20 @@ func driveC18(c *h.Ctx) error {
 		}
 		acc, e1 := c18Chain(c, e, x, mk, kind, cj)
 		c.Eval(e.name+"/"+root+"/"+hex.EncodeToString(x), acc)
+		if e.name != "ttlv" && acc && (strings.Contains(kind, "lexical") || kind == "replay" || kind == "oasis-vector") {
+			// the same obligation with a local time zone that is not UTC (the text encodings print
+			// and read date-times through time.Local)
+			old := time.Local
+			time.Local = time.FixedZone("UTC+1", 3600)
+			cz := map[string]any{}
+			for k, v := range cj {
+				cz[k] = v
+			}
+			cz["local_zone"] = "UTC+1"
+			c18Chain(c, e, x, mk, kind+"+zone", cz)
+			time.Local = old
+			c.Count("zone-leg")
+		}
 		if e.name != "ttlv" || len(x) > 3000 {
 			return
 		}
